@@ -39,6 +39,10 @@ type OpRecord struct {
 	SentBefore, CommitsBefore, RoundsBefore int
 	Settled                                 bool
 	Inconclusive                            bool
+	// what the node holds at its SPI boundary when the op starts (fake scheduler only): election registration, storage calls
+	SchedActive                     bool
+	SchedCur                        fakes.Registration
+	Stops, Regs, Clears, StoreCalls int
 }
 
 type Run struct {
@@ -141,6 +145,10 @@ func (r *Run) do(op Op) {
 	for _, e := range h.Gates.Blocked() {
 		rec.BlockedAtStart = append(rec.BlockedAtStart, GateEntry{Kind: e.Kind, H: e.H, V: e.V, Policy: e.Policy})
 	}
+	if h.Sch != nil {
+		rec.SchedActive, rec.SchedCur, rec.Stops, rec.Regs = h.Sch.Snap()
+	}
+	rec.Clears, rec.StoreCalls = h.Sto.NClears(), h.Sto.NLog()
 	switch op.K {
 	case "round":
 		before := h.NCommits()
